@@ -116,7 +116,8 @@ def spread_cases(rng, tier):
     for v in corpus:
         cases.append(spread_case(*v, "corpus"))
     decs = [(a, b) for a in range(0, 19) for b in range(0, 19)]
-    for (od, rd) in (decs if tier == "thorough" else rng.sample(decs, 90) + [(6, 18), (18, 6), (0, 18), (18, 0), (6, 6)]):
+    wide = [(26, 6), (6, 26), (19, 0), (0, 19), (20, 0), (0, 20), (255, 0), (38, 18), (18, 38)]   # native decimals are any u8
+    for (od, rd) in (decs + wide if tier == "thorough" else rng.sample(decs, 90) + [(6, 18), (18, 6), (0, 18), (18, 0), (6, 6)] + wide):
         for _ in range(2 * n if tier == "quick" else 3):
             ms = rng.choice([0, 1, 10 ** 16, 5 * 10 ** 15, D - 1, D, D + 1] + rates(rng, 1))
             both = rng.random() < 0.6
